@@ -223,7 +223,7 @@ def run(ctx, scratch):
                 for self_emb in (False, True):
                     combo = (norm, self_emb, rng.random() < 0.5, rng.choice(ACTS), rng.random() < 0.5)
                     cases.append(new_case(rng, 'exh_dir_%d' % n, n, E, True, combo))
-    for _ in range(3 if quick else 20):
+    for _ in range(5 if quick else 20):
         order = list(combos)
         rng.shuffle(order)
         for combo in order:
@@ -296,7 +296,7 @@ def run(ctx, scratch):
 
         # ============================ (b) gradients ================================================
         grad_cases = []
-        reps = 6 if quick else 40
+        reps = 10 if quick else 40
         for name in ('identity', 'relu', 'sigmoid', 'softmax', 'CrossEntropy', 'BinaryCrossEntropy'):
             for ch in (1, 2, 3, 4):
                 for _ in range(reps):
@@ -378,12 +378,35 @@ def run(ctx, scratch):
             e = clist([('%s %s %d' % (fn, clist(p_, cq), y)) for p_, y in zip(r['ok']['probs'], g['labels'])])
             exprs.append('mout %s' % e)
             targets.append((g['name'] + '.loss_gradient', g, r['ok']['gradient'], dict(loss=g['name'])))
+            if g['name'] == 'BinaryCrossEntropy' and len(g['signal'][0]) >= 2:
+                # the repaired (one-hot) form of D18, Gnn.g_bce_gradient_onehot: accepted as an alternative so that the
+                # correspondence survives the fix; which form the code follows is recorded in the evidence
+                e = clist([('ce_gradient_o %s %d' % (clist(p_, cq), y)) for p_, y in zip(r['ok']['probs'], g['labels'])])
+                exprs.append('mout %s' % e)
+                targets.append(('alt', g, r['ok']['gradient'], dict(loss=g['name'])))
         vals = coq_eval('c19grad', IMPORTS, exprs, prelude=PRELUDE, shard=120)
+        bce_forms = {'label_value (as coded, D18)': 0, 'one_hot (repaired)': 0}
+        pending = None
         for (site, g, got, fields), v in zip(targets, vals):
+            if site == 'alt':
+                if pending is not None:
+                    if mat_close(got, to_float(v)):
+                        bce_forms['one_hot (repaired)'] += 1
+                    else:
+                        ctx.violation(*pending[0], **pending[1])
+                    pending = None
+                else:
+                    bce_forms['label_value (as coded, D18)'] += 1
+                continue
             ctx.count('formula:' + site, ('formula', site, g), True)
             if not mat_close(got, to_float(v)):
-                ctx.violation(site, 'implementation differs from the modelled closed form', case=g, expected=to_float(v),
-                              observed=got, kind='model', **fields)
+                viol = ((site, 'implementation differs from the modelled closed form'),
+                        dict(case=g, expected=to_float(v), observed=got, kind='model', **fields))
+                if g['name'] == 'BinaryCrossEntropy' and len(g['signal'][0]) >= 2:
+                    pending = viol       # decided by the alternative form that follows
+                else:
+                    ctx.violation(*viol[0], **viol[1])
+        ctx.extra['bce_multi_gradient_form_matched'] = bce_forms
 
         # ============================ (c) sampler ==================================================
         samp_cases = []
@@ -429,7 +452,7 @@ def run(ctx, scratch):
                               case=s, expected=exp, observed=rows, kind='model')
 
         # ============================ (c) classifier end to end ====================================
-        for t in range(150 if quick else 1200):
+        for t in range(200 if quick else 1200):
             directed = rng.random() < 0.3
             n, E, fam = gen.random_graph(rng, nmax, directed=directed, nmin=3)
             triples, _ = gen.random_weights(rng, E, directed=directed)
